@@ -275,20 +275,23 @@ pub fn must_not_change_op() -> impl Strategy<Value = HOp> {
 }
 
 pub fn destructive_op() -> impl Strategy<Value = HOp> {
-    prop_oneof![
+    let a = prop_oneof![
         3 => (0u8..3).prop_map(|back| HOp::ResetHard { back }),
         3 => (0u8..3).prop_map(|file| HOp::CheckoutPath { file }),
         2 => (0u8..3).prop_map(|file| HOp::RestoreStaged { file }),
         2 => (0u8..3).prop_map(|file| HOp::RestoreWorktree { file }),
         2 => (0u8..4).prop_map(|branch| HOp::CheckoutForce { branch }),
         2 => Just(HOp::StashDrop),
+    ];
+    let b = prop_oneof![
         2 => (0u8..3).prop_map(|file| HOp::Mv { file }),
         1 => (0u8..3).prop_map(|file| HOp::Rm { file }),
         2 => (0u8..3).prop_map(|back| HOp::Revert { back }),
         2 => (0u8..4, resolve()).prop_map(|(branch, resolve)| HOp::Merge { branch, resolve }),
         1 => (0u8..4).prop_map(|branch| HOp::BranchDelete { branch }),
         2 => (0u8..8).prop_map(|mask| HOp::CommitFiles { mask }),
-    ]
+    ];
+    prop_oneof![14 => a, 10 => b]
 }
 
 #[derive(Clone, Copy, Debug, Default)]
@@ -353,6 +356,9 @@ pub struct Engine {
     pub conflict_keys: BTreeSet<String>,
     /// per file since the last commit: (an agent checkpointed it, a person edited it afterwards)
     pub pending_file_state: BTreeMap<String, (bool, bool)>,
+    /// files whose pending AI lines were carried over a partial commit as INITIAL
+    /// (line numbers without a content snapshot)
+    pub initial_files: BTreeSet<String>,
 }
 
 fn sig(pid: &str, s: &str) -> String {
@@ -426,6 +432,7 @@ impl Engine {
             known_taint: None,
             conflict_keys: BTreeSet::new(),
             pending_file_state: BTreeMap::new(),
+            initial_files: BTreeSet::new(),
         };
         e.known_commits = e.all_commits();
         Some(e)
@@ -929,6 +936,7 @@ impl Engine {
                 self.pending_tainted = false;
                 self.pending_stash_shifted = false;
                 self.pending_file_state.clear();
+                self.initial_files.clear();
                 true
             }
         }
@@ -966,7 +974,7 @@ impl Engine {
                             } else {
                                 "line-attributed-to-session-that-never-wrote-it"
                             };
-                            rep.violate(
+                            rep.violate_key(
                                 sig(self.pid, s),
                                 format!(
                                     "[{ctx}] blame attributes {p}:{n} {content:?} to {:?} but its writers are {:?}; ops so far: {:?}",
@@ -974,6 +982,7 @@ impl Engine {
                                     e.writers,
                                     self.outcomes.iter().map(|o| o.kind).collect::<Vec<_>>()
                                 ),
+                                &key_of(content),
                             );
                         }
                     }
@@ -983,6 +992,75 @@ impl Engine {
                             format!("[{ctx}] blame attributes {p}:{n} {content:?} (never written by an agent) to {:?}", obs),
                         );
                     }
+                }
+            }
+        }
+    }
+
+    /// Safety over every note in the repository: each listed line's content must
+    /// have been written by the listed session.
+    pub fn check_all_notes_safety(&mut self, rep: &mut CaseReport) {
+        let list = self.w.notes_list();
+        for (commit, _blob) in list {
+            let Some(Ok(note)) = self.w.note(&commit) else { continue };
+            let producer = self.produced_by.get(&commit).cloned().unwrap_or("unknown");
+            for f in &note.files {
+                let Some(lines) = self.w.lines_at(&commit, &f.path) else { continue };
+                for e in &f.entries {
+                    let Some(obs) = self.w.actor_of_hash(&e.hash) else {
+                        rep.violate(sig(self.pid, "unknown-session"), format!("note of {commit} lists unknown session {}", e.hash));
+                        continue;
+                    };
+                    for n in e.lines() {
+                        let Some(content) = lines.get((n - 1) as usize) else { continue };
+                        let k = key_of(content);
+                        if k.is_empty() {
+                            continue;
+                        }
+                        rep.count("note_lines_checked_for_safety", 1);
+                        let ok = match self.w.model.map.get(&k) {
+                            Some(en) => en.writers.contains(&obs) || en.also_ok.contains(&obs) || en.ws_touchers.contains(&obs),
+                            None => false,
+                        };
+                        if !ok {
+                            let rewritten = producer.starts_with("rebase") || producer == "cherry-pick";
+                            let s = if self.w.model.del_neighbors.get(&k).map(|d| d.contains(&obs)).unwrap_or(false) {
+                                "line-adjacent-to-deletion-attributed-to-deleter"
+                            } else if rewritten {
+                                "rewritten-commit-note-is-cumulative"
+                            } else {
+                                "line-attributed-to-session-that-never-wrote-it"
+                            };
+                            rep.violate_key(
+                                sig(self.pid, s),
+                                format!(
+                                    "note of {} [{producer}] lists {:?}:{n} {content:?} for {:?}, who never wrote it; ops: {:?}",
+                                    &commit[..8],
+                                    f.path,
+                                    obs,
+                                    self.outcomes.iter().map(|o| o.kind).collect::<Vec<_>>()
+                                ),
+                                &k,
+                            );
+                        }
+                    }
+                }
+            }
+        }
+    }
+
+    /// Apply the sticky known-finding taint / conflict-zone classification to
+    /// violations raised outside run_op (final checks).
+    pub fn finish_taint(&mut self, rep: &mut CaseReport) {
+        for v in rep.violations.iter_mut() {
+            if is_misattribution_sig(&v.sig) && v.key.as_ref().map(|k| self.conflict_keys.contains(k)).unwrap_or(false) {
+                v.sig = sig(self.pid, "conflict-resolution-misattributes-resolved-lines");
+            }
+        }
+        if let Some(t) = self.known_taint {
+            for v in rep.violations.iter_mut() {
+                if is_misattribution_sig(&v.sig) {
+                    v.sig = sig(self.pid, t);
                 }
             }
         }
@@ -1009,8 +1087,14 @@ impl Engine {
                         // the agent's pre-edit human checkpoint also records what a person
                         // did to this file before
                         *st = (true, false);
+                        self.initial_files.remove(&p);
                     } else {
                         st.1 = true;
+                        if self.initial_files.contains(&p) && self.known_taint.is_none() {
+                            // F33
+                            rep.class("human-edit-on-file-with-carried-over-initial");
+                            self.known_taint = Some("initial-attribution-not-remapped-after-uncheckpointed-human-edit");
+                        }
                     }
                 }
                 if actor.is_ai() && eff.changed {
@@ -1067,6 +1151,19 @@ impl Engine {
                 let after = self.w.head();
                 out.ok = o.ok() && before != after;
                 if out.ok {
+                    // AI work in files left out of this commit is carried over as INITIAL
+                    let left: Vec<String> = self
+                        .pending_file_state
+                        .iter()
+                        .filter(|(f, (ai, _))| *ai && !sel.contains(f))
+                        .map(|(f, _)| f.clone())
+                        .collect();
+                    for f in left {
+                        self.initial_files.insert(f);
+                    }
+                    for f in &sel {
+                        self.pending_file_state.remove(f);
+                    }
                     let new = self.register_new_commits(kind);
                     self.check_new_commits(&new, kind, rep);
                     if self.checks.safety {
